@@ -1,6 +1,6 @@
 (* Wire entry points of the C16 model (density estimation: system matrix, right-hand side, hats, normalisation). *)
 From Coq Require Import ZArith List Bool QArith Qcanon.
-From SG Require Import Base.Sx Base.QcUtil Model.Gram.
+From SG Require Import Base.Sx Base.QcUtil Model.Gram Model.GramSolve.
 Import ListNotations.
 Open Scope Z_scope.
 
@@ -16,6 +16,24 @@ Definition raw_alphas (uniform ml : bool) (G : list (list Qc)) (b cert : list Qc
            then match G with [dv] :: _ => map (fun bi => (bi * (1 / dv))%Qc) b | _ => [] end
            else match G with R :: _ => solve_lumped_nonuniform R b | _ => [] end)
   else (check_solution G cert b, cert).
+
+(* result of the model pipeline: (raw final integral); the solve reports failure explicitly *)
+Definition of_pipeline (r : option (list Qc * list Qc * Qc)) : sx :=
+  match r with
+  | Some (raw, fin, integ) => Lv [of_LQc raw; of_LQc fin; of_Qc integ]
+  | None => sx_err 3
+  end.
+
+Definition get_ugrid (s : sx) : option (list Z * Qc * list Qc) :=
+  match s with
+  | Lv [lv; c; al] => do lv <- get_LZ lv; do c <- get_Qc c; do al <- get_LQc al; Some (lv, c, al)
+  | _ => None
+  end.
+Definition get_ngrid (s : sx) : option (list (list Qc) * Qc * list Qc) :=
+  match s with
+  | Lv [st; c; al] => do st <- get_LLQc st; do c <- get_Qc c; do al <- get_LQc al; Some (st, c, al)
+  | _ => None
+  end.
 
 Definition entry_C16 (sub : Z) (a : sx) : sx :=
   match sub, a with
@@ -72,5 +90,21 @@ Definition entry_C16 (sub : Z) (a : sx) : sx :=
   | 11, Lv [lv; data; signs] => ret (
       do lv <- get_LZ lv; do data <- get_LLQc data; do signs <- get_LQc signs;
       Some (of_LQc (rhs_uniform lv data signs)))
+  (* the complete pipeline inside the model (own solve): data -> raw surpluses, normalised surpluses, integral *)
+  | 12, Lv [stripes; lam; ml; data; signs; lab] => ret (
+      do stripes <- get_LLQc stripes; do lam <- get_Qc lam; do ml <- get_bool ml;
+      do data <- get_LLQc data; do signs <- get_LQc signs; do lab <- get_bool lab;
+      Some (of_pipeline (surpluses_nonuniform stripes lam ml data signs lab)))
+  | 13, Lv [lv; lam; ml; data; signs; lab] => ret (
+      do lv <- get_LZ lv; do lam <- get_Qc lam; do ml <- get_bool ml;
+      do data <- get_LLQc data; do signs <- get_LQc signs; do lab <- get_bool lab;
+      Some (of_pipeline (surpluses_uniform lv lam ml data signs lab)))
+  (* combined density of a scheme: ((levelvec coefficient surpluses) ...) points *)
+  | 14, Lv [grids; pts] => ret (
+      do gl <- get_L grids; do grids <- opt_all (map get_ugrid gl); do pts <- get_LLQc pts;
+      Some (of_LQc (map (combine_uniform grids) pts)))
+  | 15, Lv [grids; pts] => ret (
+      do gl <- get_L grids; do grids <- opt_all (map get_ngrid gl); do pts <- get_LLQc pts;
+      Some (of_LQc (map (combine_nonuniform grids) pts)))
   | _, _ => sx_err 0
   end.
